@@ -98,6 +98,26 @@ def segmentHasTables (s : Segment) : Bool :=
   s.pre.includeMap.isSome || s.pre.excludeMap.isSome || s.includedContexts.any (·.pre.isSome) ||
   s.excludedContexts.any (·.pre.isSome) || s.rules.any (·.clauses.any clauseHasTables)
 
+/-- `fresh` (fully preprocessed) cut down to the tables that `g` actually carries. -/
+def restrictClause (c fresh : Clause) : Clause :=
+  { fresh with pre := { values := if c.pre.values.isSome then fresh.pre.values else none,
+                        valuesMap := if c.pre.valuesMap.isSome then fresh.pre.valuesMap else none } }
+def restrictTarget (t fresh : Target) : Target := { fresh with pre := if t.pre.isSome then fresh.pre else none }
+def restrictSegTarget (t fresh : SegmentTarget) : SegmentTarget :=
+  { fresh with pre := if t.pre.isSome then fresh.pre else none }
+def restrictFlag (g fresh : Flag) : Flag :=
+  { fresh with targets := List.zipWith restrictTarget g.targets fresh.targets,
+               contextTargets := List.zipWith restrictTarget g.contextTargets fresh.contextTargets,
+               rules := List.zipWith (fun r r' => { r' with clauses := List.zipWith restrictClause r.clauses r'.clauses })
+                 g.rules fresh.rules }
+def restrictSegment (s fresh : Segment) : Segment :=
+  { fresh with pre := { includeMap := if s.pre.includeMap.isSome then fresh.pre.includeMap else none,
+                        excludeMap := if s.pre.excludeMap.isSome then fresh.pre.excludeMap else none },
+               includedContexts := List.zipWith restrictSegTarget s.includedContexts fresh.includedContexts,
+               excludedContexts := List.zipWith restrictSegTarget s.excludedContexts fresh.excludedContexts,
+               rules := List.zipWith (fun r r' => { r' with clauses := List.zipWith restrictClause r.clauses r'.clauses })
+                 s.rules fresh.rules }
+
 def handle (j : Json) : Except String Json := do
   let kind ← str j "kind"
   let rxT ← rxTable (fldD j "rx")
@@ -129,10 +149,12 @@ def handle (j : Json) : Except String Json := do
     let goJ := fldD j "go"
     -- the preprocessed tables the real code built (they travel with the case and the model evaluates
     -- with them) must be the ones the model's own preprocessing builds from the same data
+    -- (element by element: an item may carry tables on some of its clauses and lists only; each
+    -- table that is present must be the one the model builds for that element)
     let strippedOK (g : Flag) : Bool :=
-      (sortTables (flagOut (preprocessFlag rx (stripFlag g)))).compress == (sortTables (flagOut g)).compress || !flagHasTables g
+      (sortTables (flagOut (restrictFlag g (preprocessFlag rx (stripFlag g))))).compress == (sortTables (flagOut g)).compress || !flagHasTables g
     let segOK (s : Segment) : Bool :=
-      (sortTables (segmentOut (preprocessSegment rx (stripSegment s)))).compress == (sortTables (segmentOut s)).compress || !segmentHasTables s
+      (sortTables (segmentOut (restrictSegment s (preprocessSegment rx (stripSegment s))))).compress == (sortTables (segmentOut s)).compress || !segmentHasTables s
     let preOK : Bool := strippedOK f && (env.store.flags.map (·.2)).all strippedOK &&
       (env.store.segments.map (·.2)).all segOK
     let preds ← if goJ.isNull then pure Json.null else do
